@@ -22,6 +22,14 @@ def build(ctx):
                 for fault, lx, sure in pt.faults(rng, tree, lex):
                     c = {"text": pt.statement_text(rng, lx), "fault": fault, "kind": kind}
                     S["reject" if sure else "ambiguous"].append(c)
+    # kernel complexes whose NAME starts with a statement keyword and whose pattern starts with `d( ... )`: no keyword
+    # statement accepts an opening bracket there, so the text has exactly one reading and must round-trip
+    for kw in pt.KEYWORDS:
+        for _ in range(6 if quick else 60):
+            t = pt.gen_tree(rng, "kernel-complex", 3)
+            t[1] = kw + pt.ident(rng)
+            t[2] = [pt.domain(rng), t[2]]
+            S["valid"].append({"tree": t, "text": pt.statement_text(rng, pt.lexemes(rng, t), eof=False), "kind": "kernel-complex"})
     # texts outside the round-trip guard (correspondence only): renderings of two trees
     for _ in range(200 if quick else 3000):
         r = rng.random()
